@@ -92,7 +92,7 @@ FLOAT_UFUNCS = frozenset("sqrt cbrt exp exp2 expm1 log log2 log10 log1p sin cos 
 UNARY_UFUNCS = FLOAT_UFUNCS | frozenset("abs absolute negative positive rint round round_ around floor ceil trunc sign square reciprocal conjugate".split())
 
 
-_NEG = {"LtE": "Gt", "Lt": "GtE", "Gt": "LtE", "GtE": "Lt", "Eq": "NotEq", "NotEq": "Eq"}
+_NEG = {"LtE": "Gt", "Lt": "GtE", "Gt": "LtE", "GtE": "Lt", "Eq": "NotEq", "NotEq": "Eq", "Finite": "NotFinite", "NotFinite": "Finite"}
 
 
 def negate_cmp(c):
@@ -175,6 +175,8 @@ class Result(object):
         self.findings = []  # (kind, line, msg, funckey)
         self.pulled = set()
         self.divisions = []  # (line, left, right, node, funckey)
+        self.div_results = {}  # id(division call node) -> alias of the quotient
+        self.finite_masked = []  # aliases of arrays wrapped as masked arrays whose mask includes ~isfinite(of themselves)
         self.kwreads = []  # (key, how, node, funckey, default-node)
         self.calls = []  # (qual, node, funckey)
         self.ncstores = []  # (line, value)
@@ -185,6 +187,8 @@ class Result(object):
         self.validates = []  # (line, arg value, node)
         self.truths = []
         self.super_calls = []  # (node, kwargs Kw snapshot, funckey)
+        self.soft_undecided = []  # reasons why what was computed for this command is not to be trusted as a verdict (reported only when no rule found a violation)
+        self.cond_deps = {}  # id(test node of an `if`) -> inputs its value was computed from
         self.fresh_executes = []  # (node, class, funckey): <Command subclass>(...).execute(...) evaluated on the spot
         self.scaldivs = []  # scalar / scalar divisions: (line, dividend, divisor, node, funckey)
         self.return_conds = {}  # id(return stmt) -> branch conditions under which it was reached
@@ -329,6 +333,14 @@ class Interp(object):
         if not fr.env.get("__dead__"):
             fr.returns.append((fi.node, Other("none")))
         self.res.returns = [(s, v, fi.key) for s, v in fr.returns]
+        for (fk_, L_), uses in self.__dict__.get("_three_way", {}).items():
+            if {k_ for k_, _e, _m, _f in uses} == {"second", "tail"}:
+                e_ = uses[0][1]
+                self.res.soft_undecided.append("%s:%s %s — the input list %s is split three ways (first, second, the others); the first/rest model of an input list cannot follow that"
+                                               % (fi.module.rel, getattr(e_, "lineno", 0), _src(e_), L_))
+            else:
+                for k_, e_, m_, f_ in uses:
+                    self.finding("list-index", e_, m_, f_)
         return self.res
 
     # ---------------------------------------------------------------- statements
@@ -376,6 +388,12 @@ class Interp(object):
                 cv = self.ev(s.test, fr)
                 self.truth(cv, s.test, fr)
                 const = self.static_truth(cv)
+                deps_ = (cv.D | cv.Pg) if isinstance(cv, (Arr, Scal)) else E
+                for x_ in ast.walk(s.test):
+                    if isinstance(x_, ast.Name) and isinstance(env.get(x_.id), (Arr, Scal)):
+                        deps_ = deps_ | env[x_.id].D | env[x_.id].Pg
+                if deps_:
+                    self.res.cond_deps[id(s.test)] = self.res.cond_deps.get(id(s.test), E) | deps_
             branches = []
             for body, take in ((s.body, True), (s.orelse, False)):
                 if const is not None and const != take:
@@ -383,6 +401,8 @@ class Interp(object):
                 f2 = Frame(fr.module, fr.func, fr.cls, _copy_env(env), fr.depth)
                 f2.returns = fr.returns
                 self.refine(s.test, take, f2)
+                if take and body and isinstance(body[0], ast.AugAssign) and self._result_type_guard(s.test, body[0], fr):
+                    self.__dict__.setdefault("_dtype_guarded", set()).add(id(body[0]))
                 self.cond_stack.append((s.test, take, fr))
                 try:
                     self.exec_block(body, f2)
@@ -607,6 +627,19 @@ class Interp(object):
                 or (isinstance(op, ast.NotEq) and c == 1 and not want) or (isinstance(op, ast.Gt) and c == 1 and not want) or (isinstance(op, ast.GtE) and c == 2 and not want)
             if one and isinstance(lst, Lst) and lst.L and lst.part == "all":
                 fr.env["__single__"] = frozenset(fr.env.get("__single__", frozenset()) | {lst.L})
+        if isinstance(t, ast.Compare) and len(t.ops) == 1 and isinstance(t.ops[0], (ast.In, ast.NotIn)) and isinstance(t.left, ast.Attribute) and t.left.attr == "kind" \
+                and isinstance(t.left.value, ast.Name) and isinstance(t.comparators[0], ast.Constant) and isinstance(t.comparators[0].value, str):
+            # `dt.kind in "fc"`: the element type is floating (or not) on this branch
+            dv = fr.env.get(t.left.value.id)
+            if isinstance(dv, Other) and dv.tag == "dtype" and isinstance(dv.info, Arr):
+                kinds = set(t.comparators[0].value)
+                member = want if isinstance(t.ops[0], ast.In) else not want
+                klass = {"f": {"f", "c"}, "i": {"i", "u"}, "b": {"b"}}
+                keep = frozenset(k_ for k_ in dv.info.dt if (klass[k_] <= kinds if member else not (klass[k_] & kinds)))
+                if member and not all((klass[k_] <= kinds) or not (klass[k_] & kinds) for k_ in dv.info.dt):
+                    keep = dv.info.dt  # the letters split one of the abstract kinds: no refinement
+                if keep:
+                    fr.env[t.left.value.id] = Other("dtype", replace(dv.info, dt=keep))
         if isinstance(t, ast.Compare) and len(t.ops) == 1 and isinstance(t.ops[0], (ast.In, ast.NotIn)):
             base = fr.env.get(t.comparators[0].id) if isinstance(t.comparators[0], ast.Name) else None
             if isinstance(base, Kw) and isinstance(t.left, ast.Constant):
@@ -752,6 +785,8 @@ class Interp(object):
             return a
         if isinstance(b, Scal) and isinstance(a, Other) and a.tag in ("opaque", "rawarg"):
             return b
+        if isinstance(a, Other) and isinstance(b, Other) and a.tag == b.tag == "dtype" and isinstance(a.info, Arr) and isinstance(b.info, Arr):
+            return Other("dtype", Arr(kind="plain", alias=E, dt=a.info.dt | b.info.dt, dtprov=a.info.dtprov | b.info.dtprov))
         if isinstance(a, Other) and isinstance(b, Other) and a.tag == b.tag:
             return Other(a.tag, a.info if a.info == b.info else None)
         if isinstance(a, Arr) or isinstance(b, Arr):
@@ -1053,10 +1088,24 @@ class Interp(object):
         else:
             self.unsupported("augmented assignment on %r" % (tv,), s, fr)
 
+    def _result_type_guard(self, test, aug, fr):
+        """`numpy.result_type(T, O) == T.dtype` (either order, also promote_types on the .dtype's) for the target T and operand O of `aug`"""
+        if not (isinstance(test, ast.Compare) and len(test.ops) == 1 and isinstance(test.ops[0], ast.Eq)):
+            return False
+        t_src, o_src = _src(aug.target), _src(aug.value)
+        for call, other in ((test.left, test.comparators[0]), (test.comparators[0], test.left)):
+            if isinstance(call, ast.Call) and (self.q(call.func, fr) or "") in ("numpy.result_type", "numpy.promote_types") and len(call.args) == 2 and not call.keywords:
+                args = {_src(a_)[:-6] if _src(a_).endswith(".dtype") else _src(a_) for a_ in call.args}
+                if args == {t_src, o_src} and _src(other) == t_src + ".dtype":
+                    return True
+        return False
+
     def dtype_check(self, tv, ov, s, fr):
         """A4: an augmented operator keeps the target's dtype; numpy refuses a non-same_kind cast"""
         if isinstance(s.op, (ast.BitOr, ast.BitAnd, ast.BitXor)):
             return
+        if id(s) in self.__dict__.get("_dtype_guarded", ()) and not isinstance(s.op, ast.Div):
+            return  # first statement under `if numpy.result_type(target, operand) == target.dtype:` - the target's type holds the result exactly
         if isinstance(ov, (Arr, Scal)):
             odt = ov.dt
         else:
@@ -1342,6 +1391,10 @@ class ArrayInterp(Interp):
                     gen = lambda s_: frozenset("ELEM" if x in t else x for x in s_)  # noqa: E731
                     tmpl = replace(v, alias=gen(v.alias), M=gen(v.M), D=gen(v.D), Pc=gen(v.Pc), Pg=gen(v.Pg), dtprov=gen(v.dtprov), maskof=gen(v.maskof), dataof=gen(v.dataof), maskalias=gen(v.maskalias))
                     return Lst("masks" if (v.isbool and v.maskof) else "arrs", L=L, part=part, elem=tmpl)
+        if isinstance(v, Other) and v.tag == "dtype" and isinstance(v.info, Arr) and isinstance(it, Lst) and it.what in ("arrs", "cmds") and it.part == "all" and not filtered:
+            # [x.dtype for x in inputs]: the element types of all of them
+            whole = self.part_elem(replace(it, what="arrs")) if it.what == "arrs" else None
+            return Lst("dtypes", elem=Other("dtype", whole if isinstance(whole, Arr) else v.info))
         if isinstance(v, Scal):
             D = v.D
             Pg = v.Pg
@@ -1504,7 +1557,16 @@ class ArrayInterp(Interp):
                     return base
                 if isinstance(lo, Scal) and lo.const == 0 and hi is None:
                     return base
-            self.finding("list-index", e, "input list consumed through `%s`: inputs do not play symmetric roles / some may be dropped" % _src(e), fr)
+            # first, second and the others (`xs[0] op xs[1]`, then `for x in xs[2:]`): a three-way split the first/rest model of an
+            # input list cannot follow - no verdict once both the second element and the tail from the third are read
+            seen3 = self.__dict__.setdefault("_three_way", {})
+            kind3 = "second" if (isinstance(idx, Scal) and idx.const == 1) else "tail" if (is_slice and isinstance(idx.info[0], Scal) and idx.info[0].const == 2 and idx.info[1] is None) else None
+            msg3 = "input list consumed through `%s`: inputs do not play symmetric roles / some may be dropped" % _src(e)
+            if kind3 and base.part == "all":
+                # decided when the body has been walked (see run()): both kinds read -> no verdict, otherwise the finding stands
+                seen3.setdefault((self.fkey(fr), base.L), []).append((kind3, e, msg3, fr))
+            else:
+                self.finding("list-index", e, msg3, fr)
             if is_slice:
                 return replace(base, part="rest" if base.part == "all" else base.part)
             return self.part_elem(replace(base, part="first" if base.part == "all" else base.part)) if base.what != "cmds" else Cmd(base.L, "first")
@@ -1605,6 +1667,9 @@ class ArrayInterp(Interp):
             if base.shape == "same":
                 self.finding("equivariance", e, "positional index along a data axis: %s" % _src(e), fr)
             return replace(base, shape="unknown")
+        if isinstance(idx, Arr) and isinstance(idx.sel, tuple) and idx.sel and idx.sel[0] == "inverse" and idx.shape == "raveled" and base.shape == "flat" and base.kind == "plain":
+            # table[inverse]: one table entry per distinct value, looked up cell by cell (A30)
+            return replace(base, shape="raveled", alias=self.S(e), D=base.D | idx.D, sel=None, cmp=None)
         if isinstance(idx, Arr):
             if base.shape == "same":
                 self.finding("equivariance", e, "array used as positional index: %s" % _src(e), fr)
@@ -2120,13 +2185,16 @@ class ArrayInterp(Interp):
         if meth == "astype":
             t = A[0] if A else K.get("dtype")
             dt = base.dt
+            prov_ = E
             if isinstance(t, Other) and t.tag == "type":
                 dt = {"builtins.float": F_, "builtins.int": I_, "builtins.bool": B_}.get(t.info, IF_)
+            elif isinstance(t, Other) and t.tag == "dtype" and isinstance(t.info, Arr):
+                dt, prov_ = t.info.dt, t.info.dtprov  # an element type computed from arrays (result_type, x.dtype)
             cp = K.get("copy")
             if isinstance(cp, Other) and cp.tag == "bool" and cp.info is False:
                 # astype(copy=False) returns the array itself whenever the element type already matches
                 return replace(base, alias=base.alias | self.S(e), dt=dt, dtprov=E)
-            return replace(base, alias=self.S(e), dt=dt, dtprov=E, maskof=E, dataof=E)
+            return replace(base, alias=self.S(e), dt=dt, dtprov=prov_, maskof=E, dataof=E)
         if meth == "compressed":
             return replace(base, kind="plain", M=E, shape="flat", alias=self.S(e), maskof=E, dataof=E)
         if meth == "filled":
@@ -2177,6 +2245,11 @@ class ArrayInterp(Interp):
         if meth in ("ravel", "flatten") and base.shape == "same" and not e.args:
             # every cell, in storage order: undone exactly by reshape(<the original shape>)  (A28)
             return replace(base, shape="raveled", alias=(base.alias | self.S(e)) if meth == "ravel" else self.S(e))
+        if meth in ("argmax", "argmin", "argsort") and base.shape == "stacked":
+            ax_ = self.ev(e.args[0], fr) if e.args else next((self.ev(k_.value, fr) for k_ in e.keywords if k_.arg == "axis"), None)
+            if isinstance(ax_, Scal) and ax_.const == 0:
+                # per cell, WHICH layer holds the extreme: a layer-axis quantity, but selecting layers by it is not modelled
+                self.unsupported("%s(axis=0) over the stacked inputs (a per-cell choice of layer)" % meth, e, fr)
         if meth in POSITIONAL_METHODS:
             if base.shape in ("same", "stacked"):
                 self.finding("equivariance", e, "%s() is position dependent on data axes: %s" % (meth, _src(e)), fr)
@@ -2216,13 +2289,22 @@ class ArrayInterp(Interp):
         short = qn.replace("builtins.", "")
         if qn in ("numpy.result_type", "numpy.promote_types", "numpy.min_scalar_type", "numpy.common_type", "numpy.find_common_type"):
             dts = []
+            prov = E
             for x in A:
+                if isinstance(x, Arr):
+                    prov |= x.dtprov
+                elif isinstance(x, Lst) and isinstance(x.elem, Arr):
+                    prov |= x.elem.dtprov
                 if isinstance(x, (Arr, Scal)):
                     dts.append(x.dt)
                 elif isinstance(x, Lst) and isinstance(x.elem, Arr):
                     dts.append(x.elem.dt)
                 elif isinstance(x, Other) and x.tag == "dtype" and isinstance(x.info, Arr):
                     dts.append(x.info.dt)
+                    prov |= x.info.dtprov
+                elif isinstance(x, Lst) and x.what == "dtypes" and isinstance(x.elem, Other) and isinstance(x.elem.info, Arr):
+                    dts.append(x.elem.info.dt)
+                    prov |= x.elem.info.dtprov
                 else:
                     dts = None
                     break
@@ -2230,8 +2312,19 @@ class ArrayInterp(Interp):
                 d0 = dts[0]
                 for d1 in dts[1:]:
                     d0 = promote(d0, d1)
-                return Other("dtype", Arr(kind="plain", alias=E, dt=d0))
+                return Other("dtype", Arr(kind="plain", alias=E, dt=d0, dtprov=prov))
             return Other("type", "numpy.dtype")
+        if qn == "numpy.dtype" and len(A) == 1 and not K:
+            if isinstance(a0, Other) and a0.tag == "type" and a0.info in ("builtins.float", "builtins.int", "builtins.bool"):
+                return Other("dtype", Arr(kind="plain", alias=E, dt={"builtins.float": F_, "builtins.int": I_, "builtins.bool": B_}[a0.info]))
+            if isinstance(a0, Other) and a0.tag == "dtype":
+                return a0
+        if qn in ("numpy.shape", "numpy.ma.shape") and len(A) == 1 and not K:
+            if isinstance(a0, Arr):
+                return Lst("shape", srcs=(a0.shape,))
+            return Lst("shape", srcs=("unknown",))
+        if qn in ("numpy.ndim", "numpy.ma.ndim", "numpy.size", "numpy.ma.size") and len(A) == 1 and not K:
+            return Scal(dt=I_)
         if qn in ("numpy.can_cast", "numpy.issubdtype", "numpy.isscalar", "numpy.ma.isMaskedArray", "numpy.ma.isMA", "numpy.ma.isarray", "numpy.iscomplexobj", "numpy.isrealobj", "numpy.shares_memory", "numpy.may_share_memory"):
             return Other("bool")
         if qn in ("numpy.isclose", "numpy.ma.isclose", "numpy.equal", "numpy.not_equal", "numpy.greater", "numpy.greater_equal", "numpy.less", "numpy.less_equal",
@@ -2377,7 +2470,12 @@ class ArrayInterp(Interp):
             x, y = (A + [None, None])[:2]
             if isinstance(x, Arr) or isinstance(y, Arr):
                 self.res.divisions.append((e.lineno, x, y, e, self.fkey(fr), qn))
-                return self.binop(x, y, ast.Div(), e, fr)
+                if isinstance(x, Arr) and isinstance(y, Arr):
+                    self.res.binops.append((e, "Div", x.D, y.D, self.fkey(fr)))
+                out_ = self.binop(x, y, ast.Div(), e, fr)
+                if isinstance(out_, Arr):
+                    self.res.div_results[id(e)] = out_.alias
+                return out_
             return Scal(dt=F_)
         if qn in ("numpy.logical_or", "numpy.logical_and", "numpy.logical_xor", "numpy.ma.mask_or", "numpy.ma.logical_or", "numpy.ma.logical_and"):
             x, y = (A + [None, None])[:2]
@@ -2408,7 +2506,8 @@ class ArrayInterp(Interp):
                 if qn.split(".")[-1] in ("sqrt", "exp", "log", "tanh", "float64", "float32") or qn.split(".")[-1] in FLOAT_UFUNCS:
                     dt = F_
                 if qn.split(".")[-1] in ("isnan", "isfinite", "isinf", "signbit", "isneginf", "isposinf"):
-                    return replace(a0, alias=S(), isbool=True, dt=B_, rng=(None, None), maskof=E, dataof=E)
+                    return replace(a0, alias=S(), isbool=True, dt=B_, rng=(None, None), maskof=E, dataof=E, M=E if a0.kind != "masked" else a0.M,
+                                   cmp=(a0.alias | a0.dataof, "Finite", None) if qn.endswith(".isfinite") else None)
                 return replace(a0, alias=out.alias if isinstance(out, Arr) else S(), dt=dt, rng=(None, None), maskof=E, dataof=E if not isinstance(out, Arr) else out.dataof, cmp=None)
             if isinstance(a0, Scal):
                 return Scal(D=a0.D, Pg=a0.Pg, dt=F_ if "float" in qn or qn.endswith(("sqrt", "exp", "log")) else a0.dt)
@@ -2573,12 +2672,28 @@ class ArrayInterp(Interp):
                 if not extra:
                     return vals
                 pos = replace(a0, alias=S(), shape="unknown", dt=I_, maskof=E, dataof=E, rng=(None, None), kind="plain", M=E)
-                return Lst("mixed", items=(vals,) + tuple(pos for _ in extra))
+                # return_inverse: for every cell of the (raveled) input the position of its value among the distinct values - a
+                # cell-wise quantity in storage order (A30); numpy 1.x delivers it 1-D, 2.x in the input's shape: `raveled` stands for
+                # both, `.reshape(x.shape)` restores the grid either way
+                inv = replace(pos, shape="raveled" if a0.shape == "same" and "axis" not in K else "unknown", sel=("inverse", tuple(sorted(vals.alias))))
+                return Lst("mixed", items=(vals,) + tuple(inv if k_ == "return_inverse" else pos for k_ in extra))
             return Other("opaque")
         if qn in ("numpy.sort", "numpy.ma.sort", "numpy.partition", "numpy.argsort", "numpy.ravel", "numpy.reshape", "numpy.transpose", "numpy.flip", "numpy.roll", "numpy.cumsum", "numpy.diff",
                   "numpy.take", "numpy.squeeze", "numpy.expand_dims", "numpy.swapaxes", "numpy.moveaxis", "numpy.tile", "numpy.repeat", "numpy.flipud", "numpy.fliplr",
                   "numpy.ma.ravel", "numpy.ma.reshape", "numpy.ma.transpose", "numpy.ma.squeeze", "numpy.ma.expand_dims", "numpy.ma.swapaxes", "numpy.ma.cumsum", "numpy.ma.diff", "numpy.ma.take",
                   "numpy.ma.repeat", "numpy.ma.argsort", "numpy.atleast_1d", "numpy.atleast_2d", "numpy.atleast_3d", "numpy.ma.atleast_1d", "numpy.ma.atleast_2d", "numpy.ma.atleast_3d"):
+            if isinstance(a0, Arr) and qn == "numpy.tile" and len(e.args) == 2 and a0.shape == "same":
+                # tile(x, [n] + [1] * x.ndim): n copies of x along a new leading axis, for every rank (a fresh array)
+                rp = e.args[1]
+                x_src = _src(e.args[0])
+                if isinstance(rp, ast.BinOp) and isinstance(rp.op, ast.Add) and isinstance(rp.left, (ast.List, ast.Tuple)) and len(rp.left.elts) == 1 \
+                        and isinstance(rp.right, ast.BinOp) and isinstance(rp.right.op, ast.Mult):
+                    ones, cnt = rp.right.left, rp.right.right
+                    if not isinstance(ones, (ast.List, ast.Tuple)):
+                        ones, cnt = cnt, ones
+                    if isinstance(ones, (ast.List, ast.Tuple)) and len(ones.elts) == 1 and isinstance(ones.elts[0], ast.Constant) and ones.elts[0].value == 1 \
+                            and isinstance(ones, type(rp.left)) and _src(cnt) in ("%s.ndim" % x_src, "len(%s.shape)" % x_src, "numpy.ndim(%s)" % x_src):
+                        return replace(a0, alias=S(), shape="stacked", maskof=E, dataof=E, maskalias=E, layermask=False)
             if isinstance(a0, Arr):
                 ax = K.get("axis", A[1] if len(A) > 1 else None)
                 if qn in ("numpy.sort", "numpy.ma.sort") and a0.shape == "stacked" and isinstance(ax, Scal) and ax.const == 0:
@@ -2788,6 +2903,8 @@ class ArrayInterp(Interp):
             pc = a0.Pc
             malias = a0.maskalias if a0.kind == "masked" else E
             if isinstance(mask, Arr):
+                if mask.cmp is not None and mask.cmp[1] == "NotFinite" and mask.cmp[0] & (a0.alias | a0.dataof):
+                    self.res.finite_masked.append(a0.alias | a0.dataof)  # every inf / nan cell of the data is missing in the result
                 cov = cov | mask.M
                 const = const and mask.constmask
                 malias = malias | mask.maskof | frozenset(t for t in mask.alias if is_input_token(t))  # A14: the mask argument is not copied
